@@ -833,6 +833,7 @@ class TreeTensorNetwork(TreeStructure):
         for child_id in copy(children):
             self.contract_nodes(node_id, child_id,
                                 new_identifier=new_identifier)
+            node_id = new_identifier
 
     def legs_before_combination(self, node1_id: str,
                                 node2_id: str) -> Tuple[LegSpecification, LegSpecification]:
